@@ -20,7 +20,7 @@ def run(chk):
     chk.assumptions = ['12 option rows = pairwise covering array over purge_delay {-1,0,1,10}, purge_decommits, eager_commit, eager_commit_delay, arena_eager_commit {0,1,2}, disallow_arena_alloc, arena_reserve {64 MiB, 1 GiB}, abandoned_reclaim_on_free, target_segments_per_thread {0,2}',
                        'time-dependent purging (delays 1 and 10 ms) uses the real clock in this oracle; the virtual-clock treatment is C18']
     chk.extra['rule'] = ('obligations = theorems of Props/C13.lean over regenerated definitions; evaluations = API calls of the shadow oracle summed over option rows and builds; distinct = (row, build, seed) runs')
-    chk.lean('MiVerif.Props.C13', groups=['Arith', 'Commit', 'ArenaGen'])
+    chk.lean('MiVerif.Props.C13', groups=['Arith', 'Commit', 'ArenaGen', 'Loops'])
     thorough = chk.tier == 'thorough'
     with V.Scratch() as d:
         hs = seqcommon.build(chk, d)
@@ -61,4 +61,34 @@ def run(chk):
                 elif l[:2] in ('S ', 'A '):
                     nsteps += 1; chk.count()
         chk.extra['commit_purge_direct_drive_steps'] = nsteps
+        # ---- translator validation of the loop translation: the real mi_arena_purge_range (start, length, purge mask -> result and the
+        # block ranges handed to the OS) against the regenerated function (Gen/Loops.lean) through the compiled Lean driver
+        okd, exe, dlog = V.build_driver()
+        hrel = os.path.join(d, 'c07_rel')
+        if not okd:
+            chk.broken_tie('lean driver does not build', dlog[-1500:])
+        elif os.path.exists(hrel):
+            pj = [([hrel, 'prange', str(sd), '3000'], None, 300) for sd in range(chk.seed, chk.seed + (6 if thorough else 2))]
+            ncase = 0
+            for (cmd, _, _), (rc, out, err) in zip(pj, V.pmap(pj)):
+                args = {'cmd': 'harness/c07 ' + ' '.join(cmd[1:]), 'how_to_run': 'harness/c07 %s | lean/.lake/build/bin/midriver c13pr' % ' '.join(cmd[1:])}
+                if rc != 0 or 'DONE' not in out:
+                    chk.violation('C13/purge-range-crash', 'mi_arena_purge_range crashed when driven directly (%s): %s' % (' '.join(cmd[1:]), (err or out)[-300:].replace('\n', ' ')), args); continue
+                if 'SKIP' in out:
+                    chk.log('purge-range drive skipped: ' + [l for l in out.splitlines() if l.startswith('SKIP')][0]); continue
+                for l in out.splitlines():
+                    if 'FAIL ' in l:
+                        f = l[l.index('FAIL'):]
+                        chk.violation('C13/' + f.split()[1], 'real mi_arena_purge_range (%s): %s' % (' '.join(cmd[1:]), f[5:300]), args)
+                rc2, out2, err2 = V.run([exe, 'c13pr'], input=out, timeout=300)
+                summ = [l for l in out2.splitlines() if l.startswith('c13prval cases')]
+                dl = [l for l in out2.splitlines() if l.startswith('DIFF')]
+                if summ:
+                    ncase += int(summ[0].split()[2]); chk.count(int(summ[0].split()[2]))
+                if rc2 != 0 or dl or not summ:
+                    chk.broken_tie('translator validation: regenerated mi_arena_purge_range and the real function disagree (%s)' % ' '.join(cmd[1:]), ((dl or [err2 or out2])[0])[:500] + ' | ' + args['how_to_run'])
+            chk.extra['purge_range_cases_compared'] = ncase
+            chk.log('purge-range translator validation: %d cases' % ncase)
+            if ncase == 0 and not chk.broken and not chk.violations:
+                chk.broken_tie('purge-range translator validation', 'no case was compared')
         chk.log('commit / purge direct drive without refusals: %d steps' % nsteps)
